@@ -4,7 +4,7 @@
    stack beneath it.  Stage 1: every construct except Conditional, on programs that contain no
    Delegate instruction (all easy leaves next to hard constructs are literals). *)
 From FR Require Import Base State Utf8 Utf8Facts Chars Ast Analyze Sem ExprLemmas SemSound GoBack
-                       Vm Compile StateRefine VmRefine Machine.
+                       Vm Compile StateRefine VmRefine SemK Det Machine.
 From Coq Require Import Lia NArith.
 
 Section CC.
@@ -45,12 +45,22 @@ Proof.
 Qed.
 Lemma At_nil pc : At pc []. Proof. intros k i H. destruct k; discriminate. Qed.
 
+(* the Delegate instructions the theorem covers: deterministic, capture-free blocks (Proofs/Det.v) *)
+Definition okinsn (i : insn) : bool :=
+  match i with IDelegate es sg eg => forallb det es && (eg =? sg) | _ => true end.
+Definition okdeleg (code : list insn) : Prop := forallb okinsn code = true.
+(* the stage-1 class: no Delegate instruction at all *)
 Definition is_deleg (i : insn) : bool := match i with IDelegate _ _ _ => true | _ => false end.
 Definition nodeleg (code : list insn) : Prop := forallb (fun i => negb (is_deleg i)) code = true.
-Lemma nodeleg_app a b : nodeleg (a ++ b) <-> nodeleg a /\ nodeleg b.
-Proof. unfold nodeleg. rewrite forallb_app, andb_true_iff. tauto. Qed.
-Lemma nodeleg_cons i c : nodeleg (i :: c) <-> is_deleg i = false /\ nodeleg c.
-Proof. unfold nodeleg. cbn [forallb]. rewrite andb_true_iff, negb_true_iff. tauto. Qed.
+Lemma nodeleg_okdeleg code : nodeleg code -> okdeleg code.
+Proof.
+  unfold nodeleg, okdeleg. induction code as [|i c IH]; cbn [forallb]; auto. intros H.
+  apply andb_true_iff in H as [H1 H2]. rewrite IH by auto. destruct i; try reflexivity. discriminate.
+Qed.
+Lemma okdeleg_app a b : okdeleg (a ++ b) <-> okdeleg a /\ okdeleg b.
+Proof. unfold okdeleg. rewrite forallb_app, andb_true_iff. tauto. Qed.
+Lemma okdeleg_cons i c : okdeleg (i :: c) <-> okinsn i = true /\ okdeleg c.
+Proof. unfold okdeleg. cbn [forallb]. rewrite andb_true_iff. tauto. Qed.
 
 Definition caps (sl : list val) : list val := firstn NC sl.
 Definition frame (k k' : nat) (sl0 sl1 : list val) : Prop :=
@@ -178,6 +188,7 @@ Definition segP (pc : nat) (code : list insn) (ns ns' : nat) (f : sst -> list ss
   forall v K, ns' <= length (v_sl v) -> st_ok cs (sof v) ->
   Gen pc (pc + length code) K (RunV pc v K) (map (R v ns ns') (f (sof v))).
 
+Definition is_behind (la : lookkind) : bool := match la with LookBehind | LookBehindNeg => true | _ => false end.
 Definition lb_alt_const (c : expr) (la : lookkind) : Prop :=
   match la, c with
   | (LookBehind | LookBehindNeg), Alt _ => const_size c = true
@@ -193,7 +204,8 @@ Fixpoint rok (b : bool) (e : expr) : Prop :=
   | Repeat c lo hi _ => (lo <= hi)%N /\ rok b c
   | Concat es | Alt es => (fix go (l : list expr) : Prop := match l with [] => True | x :: r => rok b x /\ go r end) es
   | Group c => rok b c
-  | LookAround c _ | AtomicGroup c => rok false c
+  | LookAround c la => rok false c /\ (is_behind la = true -> zok c)   (* the \Z helper only under a look-ahead *)
+  | AtomicGroup c => rok false c
   | Conditional c y n => if b then rok false c /\ rok b y /\ rok b n else False
   | _ => True
   end.
@@ -204,7 +216,7 @@ Lemma rok_alt b es : rok b (Alt es) = rok_list b es. Proof. induction es; simpl 
 Definition oke (g : nat) (e : expr) : Prop := wfe e /\ zok e /\ acheck g e = None /\ rok lk e.
 
 Definition seg_stmt (e : expr) : Prop := forall g hc pc ns code ns',
-  visit bs e g hc pc ns = inr (code, ns') -> nodeleg code -> At pc code ->
+  visit bs e g hc pc ns = inr (code, ns') -> okdeleg code -> At pc code ->
   oke g e -> NC <= ns -> 2 * (g + ngroups e) <= NC ->
   segP pc code ns ns' (sem cx e fuel g).
 
@@ -234,19 +246,33 @@ Lemma R_same v k x : sof v = x -> R v k k x v.
 Proof. intros <-. unfold R, sof; cbn [fst snd]. repeat split; auto. Qed.
 
 (* whole easy sub-expression handed over: on delegate-free programs it is a literal *)
-Lemma seg_deleg e g pc ns v K : nodeleg (delegate1 e g) -> At pc (delegate1 e g) ->
+Lemma seg_deleg e g pc ns v K : okdeleg (delegate1 e g) -> At pc (delegate1 e g) ->
   v_ix v <= length t ->
   Gen pc (pc + length (delegate1 e g)) K (RunV pc v K) (map (R v ns ns) (sem cx e fuel g (sof v))).
 Proof.
-  unfold delegate1. destruct (is_literal e) eqn:El; intros Hn Ha Hix; [|cbn in Hn; discriminate].
-  apply At_cons in Ha as [Ha _]. rewrite sem_is_literal by auto. unfold lit_res. cbn [fst snd sof length].
-  replace (pc + 1) with (S pc) by lia.
-  pose proof (step_lit cx P MS pc (v_ix v) (v_sl v) (v_aux v) K _ Ha) as Hs. rewrite Htext in Hs. fold t in Hs.
-  destruct (lit_at t (v_ix v) (push_literal e)); cbn [map].
-  - eapply (Gen_one pc (S pc) K v {| v_ix := v_ix v + length (push_literal e); v_sl := v_sl v; v_aux := v_aux v |}).
-    + apply steps_step. exact Hs.
-    + unfold R; cbn [v_ix v_sl v_aux fst snd]. repeat split; auto.
-  - apply Gen_none. apply steps_step. exact Hs.
+  unfold delegate1. destruct (is_literal e) eqn:El; intros Hn Ha Hix.
+  - apply At_cons in Ha as [Ha _]. rewrite sem_is_literal by auto. unfold lit_res. cbn [fst snd sof length].
+    replace (pc + 1) with (S pc) by lia.
+    pose proof (step_lit cx P MS pc (v_ix v) (v_sl v) (v_aux v) K _ Ha) as Hs. rewrite Htext in Hs. fold t in Hs.
+    destruct (lit_at t (v_ix v) (push_literal e)); cbn [map].
+    + eapply (Gen_one pc (S pc) K v {| v_ix := v_ix v + length (push_literal e); v_sl := v_sl v; v_aux := v_aux v |}).
+      * apply steps_step. exact Hs.
+      * unfold R; cbn [v_ix v_sl v_aux fst snd]. repeat split; auto.
+    + apply Gen_none. apply steps_step. exact Hs.
+  - (* a deterministic block handed to the automata engine *)
+    apply At_cons in Ha as [Ha _]. apply okdeleg_cons in Hn as [Hn _]. cbn [okinsn] in Hn.
+    apply andb_true_iff in Hn as [Hd Heq]. apply Nat.eqb_eq in Heq.
+    destruct (step_delegate_det cx P MS pc (v_ix v) (v_sl v) (v_aux v) K [e] g _ Ha Heq Hd) as (r & Hr & Hs).
+    cbn [length]. replace (pc + 1) with (S pc) by lia.
+    assert (Er : sem cx e fuel g (sof v) = one r (caps (v_sl v))).
+    { specialize (Hr fuel g (caps (v_sl v))). rewrite sem_concat_eq in Hr. cbn [sem_cat] in Hr.
+      rewrite <- Hr. unfold sof. generalize (sem cx e fuel g (v_ix v, caps (v_sl v))). intros l.
+      induction l as [|a l IHl]; [reflexivity|]. cbn [flat_map app]. now rewrite <- IHl. }
+    rewrite Er. destruct r as [j|]; cbn [one map].
+    + eapply (Gen_one pc (S pc) K v {| v_ix := j; v_sl := v_sl v; v_aux := v_aux v |}).
+      * apply steps_step. exact Hs.
+      * unfold R; cbn [v_ix v_sl v_aux fst snd]. repeat split; auto.
+    + apply Gen_none. apply steps_step. exact Hs.
 Qed.
 
 Ltac start e :=
@@ -403,7 +429,7 @@ Proof.
   intros IH. start (Group c).
   apply bindc_inr in Hv as ([cc ns1] & Hc & Hr). inversion Hr; subst code ns'. clear Hr.
   apply At_cons in HAt as [Ha1 HAt]. apply At_app in HAt as [HAc HA2]. apply At_cons in HA2 as [Ha2 _].
-  apply nodeleg_cons in Hnd as [_ Hnd]. apply nodeleg_app in Hnd as [Hndc _].
+  apply okdeleg_cons in Hnd as [_ Hnd]. apply okdeleg_app in Hnd as [Hndc _].
   cbn [ngroups] in Hng. cbn [wfe] in Hw. cbn [zok] in Hz. cbn [acheck] in Hac. cbn [rok] in Hrk.
   replace (pc + 1) with (S pc) in Hc by lia.
   destruct (IH (S g) hc (S pc) ns cc ns1 Hc Hndc HAc (conj Hw (conj Hz (conj Hac Hrk))) Hns ltac:(lia)) as [Hmono IHc].
@@ -523,7 +549,7 @@ Fixpoint visit_list (g pc ns : nat) (l : list expr) : cerr + cres :=
   end.
 
 Lemma seg_list : forall B, Forall seg_stmt B -> forall g pc ns code ns',
-  visit_list g pc ns B = inr (code, ns') -> nodeleg code -> At pc code ->
+  visit_list g pc ns B = inr (code, ns') -> okdeleg code -> At pc code ->
   okl g B -> NC <= ns -> 2 * (g + ngroups_list B) <= NC ->
   segP pc code ns ns' (sem_cat cx fuel g B).
 Proof.
@@ -531,7 +557,7 @@ Proof.
   - inversion Hv; subst. apply segP_nil.
   - apply bindc_inr in Hv as ([c1 ns1] & H1 & Hv). apply bindc_inr in Hv as ([c2 ns2] & H2 & Hv).
     inversion Hv; subst code ns'. clear Hv.
-    apply nodeleg_app in Hnd as [Hn1 Hn2]. apply At_app in HAt as [HA1 HA2].
+    apply okdeleg_app in Hnd as [Hn1 Hn2]. apply At_app in HAt as [HA1 HA2].
     apply okl_cons in Hokl as [Ho1 Ho2]. rewrite ngl_cons in Hng.
     pose proof (Hx g true pc ns c1 ns1 H1 Hn1 HA1 Ho1 Hns ltac:(lia)) as S1.
     assert (M1 : ns <= ns1) by apply S1.
@@ -540,20 +566,30 @@ Proof.
     intros st st' Hs Hin. eapply sem_ok; eauto. apply Ho1.
 Qed.
 
-Lemma seg_delegates l g pc ns : nodeleg (delegates l g) -> At pc (delegates l g) ->
+Lemma seg_delegates l g pc ns : okdeleg (delegates l g) -> At pc (delegates l g) ->
   segP pc (delegates l g) ns ns (sem_cat cx fuel g l).
 Proof.
   intros Hn Ha. destruct l as [|x r]; [apply segP_nil|].
-  unfold delegates in *. destruct (forallb is_literal (x :: r)) eqn:El; [|cbn in Hn; discriminate].
-  apply At_cons in Ha as [Ha _]. split; auto. intros v K Hsl Hok.
-  rewrite sem_cat_literals; [|exact El|exact (st_ok_ix v Hok)]. rewrite flat_map_push_literal in *.
-  unfold lit_res. cbn [fst snd sof length]. replace (pc + 1) with (S pc) by lia.
-  pose proof (step_lit cx P MS pc (v_ix v) (v_sl v) (v_aux v) K _ Ha) as Hs. rewrite Htext in Hs. fold t in Hs.
-  destruct (lit_at t (v_ix v) (push_literals (x :: r))); cbn [map].
-  - eapply (Gen_one pc (S pc) K v {| v_ix := v_ix v + length (push_literals (x :: r)); v_sl := v_sl v; v_aux := v_aux v |}).
-    + apply steps_step. exact Hs.
-    + unfold R; cbn [v_ix v_sl v_aux fst snd]. repeat split; auto.
-  - apply Gen_none. apply steps_step. exact Hs.
+  unfold delegates in *. destruct (forallb is_literal (x :: r)) eqn:El.
+  - apply At_cons in Ha as [Ha _]. split; auto. intros v K Hsl Hok.
+    rewrite sem_cat_literals; [|exact El|exact (st_ok_ix v Hok)]. rewrite flat_map_push_literal in *.
+    unfold lit_res. cbn [fst snd sof length]. replace (pc + 1) with (S pc) by lia.
+    pose proof (step_lit cx P MS pc (v_ix v) (v_sl v) (v_aux v) K _ Ha) as Hs. rewrite Htext in Hs. fold t in Hs.
+    destruct (lit_at t (v_ix v) (push_literals (x :: r))); cbn [map].
+    + eapply (Gen_one pc (S pc) K v {| v_ix := v_ix v + length (push_literals (x :: r)); v_sl := v_sl v; v_aux := v_aux v |}).
+      * apply steps_step. exact Hs.
+      * unfold R; cbn [v_ix v_sl v_aux fst snd]. repeat split; auto.
+    + apply Gen_none. apply steps_step. exact Hs.
+  - apply At_cons in Ha as [Ha _]. apply okdeleg_cons in Hn as [Hn _]. cbn [okinsn] in Hn.
+    apply andb_true_iff in Hn as [Hd Heq]. apply Nat.eqb_eq in Heq. split; auto. intros v K Hsl Hok.
+    destruct (step_delegate_det cx P MS pc (v_ix v) (v_sl v) (v_aux v) K (x :: r) g _ Ha Heq Hd) as (rr & Hr & Hs).
+    cbn [length]. replace (pc + 1) with (S pc) by lia.
+    specialize (Hr fuel g (caps (v_sl v))). rewrite sem_concat_eq in Hr. unfold sof. rewrite Hr.
+    destruct rr as [j|]; cbn [one map].
+    + eapply (Gen_one pc (S pc) K v {| v_ix := j; v_sl := v_sl v; v_aux := v_aux v |}).
+      * apply steps_step. exact Hs.
+      * unfold R; cbn [v_ix v_sl v_aux fst snd]. repeat split; auto.
+    + apply Gen_none. apply steps_step. exact Hs.
 Qed.
 
 (* ---------- Concat ---------- *)
@@ -667,7 +703,7 @@ Proof.
   rewrite Hes in IH. apply Forall_app in IH as [_ IH]. apply Forall_app in IH as [IHB _].
   rewrite ngroups_concat, Hes, !ngl_app in Hng. unfold okl in *.
   change (okl g es) in Hok. rewrite Hes in Hok. apply okl_app in Hok as [HoA Hok]. apply okl_app in Hok as [HoB HoC].
-  apply nodeleg_app in Hnd as [HnA Hnd]. apply nodeleg_app in Hnd as [HnB HnC].
+  apply okdeleg_app in Hnd as [HnA Hnd]. apply okdeleg_app in Hnd as [HnB HnC].
   apply At_app in HAt as [HAA HAt]. apply At_app in HAt as [HAB HAC].
   pose proof (seg_delegates A g pc ns HnA HAA) as SA.
   pose proof (seg_list B IHB _ _ _ _ _ Hm HnB HAB HoB Hns ltac:(lia)) as SB.
@@ -767,7 +803,7 @@ Qed.
 
 Lemma seg_alts hc : forall r x, Forall seg_stmt (x :: r) -> forall g pc ns cds ns',
   alt_codes hc g pc ns (x :: r) = inr (cds, ns') ->
-  nodeleg (alt_layout pc (pc + alt_size cds) cds) -> At pc (alt_layout pc (pc + alt_size cds) cds) ->
+  okdeleg (alt_layout pc (pc + alt_size cds) cds) -> At pc (alt_layout pc (pc + alt_size cds) cds) ->
   okl g (x :: r) -> NC <= ns -> 2 * (g + ngroups_list (x :: r)) <= NC ->
   ns <= ns' /\
   forall v K, ns' <= length (v_sl v) -> st_ok cs (sof v) ->
@@ -786,7 +822,7 @@ Proof.
     set (endpc := pc + alt_size (c :: c' :: r')) in *.
     assert (Eend : endpc = (pc + 1 + length c + 1) + alt_size (c' :: r')) by (unfold endpc; rewrite alt_size_cons2; lia).
     rewrite alt_layout_cons2 in Hnd, HAt.
-    apply nodeleg_cons in Hnd as [_ Hnd]. apply nodeleg_app in Hnd as [Hnc Hnd]. apply nodeleg_cons in Hnd as [_ Hnr].
+    apply okdeleg_cons in Hnd as [_ Hnd]. apply okdeleg_app in Hnd as [Hnc Hnd]. apply okdeleg_cons in Hnd as [_ Hnr].
     apply At_cons in HAt as [Ha1 HAt]. apply At_app in HAt as [HAc HAt]. apply At_cons in HAt as [Ha2 HAr].
     replace (S pc) with (pc + 1) in * by lia.
     replace (S (pc + 1 + length c)) with (pc + 1 + length c + 1) in HAr by lia.
@@ -1180,7 +1216,7 @@ Proof.
   { (* e? *)
     apply andb_true_iff in EA as [E1 E2]. apply N.eqb_eq in E1, E2. subst lo hi.
     apply bindc_inr in Hv as ([cc ns1] & Hc & Hr). inversion Hr; subst code ns'. clear Hr.
-    apply At_cons in HAt as [Ha1 HAc]. apply nodeleg_cons in Hnd as [_ Hndc].
+    apply At_cons in HAt as [Ha1 HAc]. apply okdeleg_cons in Hnd as [_ Hndc].
     replace (pc + 1) with (S pc) in * by lia.
     destruct (IH g hc (S pc) ns cc ns1 Hc Hndc HAc Hoc Hns Hng) as [Hmono IHc].
     split; auto. intros v K Hsl Hok. rewrite sem_repeat_eq. rewrite one_ne_max. change (N.to_nat 1 - N.to_nat 0) with 1.
@@ -1199,7 +1235,7 @@ Proof.
     apply andb_true_iff in EB as [E1 E2]. apply N.eqb_eq in E1, E2.
     apply bindc_inr in Hv as ([cc ns1] & Hc & Hr). inversion Hr; subst code ns'. clear Hr.
     apply At_cons in HAt as [Ha1 HAt]. apply At_cons in HAt as [Ha2 HAt]. apply At_app in HAt as [HAc HAj]. apply At_cons in HAj as [Ha3 _].
-    apply nodeleg_cons in Hnd as [_ Hnd]. apply nodeleg_cons in Hnd as [_ Hnd]. apply nodeleg_app in Hnd as [Hndc _].
+    apply okdeleg_cons in Hnd as [_ Hnd]. apply okdeleg_cons in Hnd as [_ Hnd]. apply okdeleg_app in Hnd as [Hndc _].
     replace (pc + 2) with (S (S pc)) in * by lia.
     destruct (IH g _ (S (S pc)) (ns + 2) cc ns1 Hc Hndc HAc Hoc ltac:(lia) Hng) as [Hmono IHc].
     split; [lia|]. intros v K Hsl Hok. rewrite sem_repeat_eq. rewrite E1, N.eqb_refl.
@@ -1232,7 +1268,7 @@ Proof.
     apply andb_true_iff in EC as [E1 E2]. apply N.eqb_eq in E1, E2. subst lo.
     apply bindc_inr in Hv as ([cc ns1] & Hc & Hr). inversion Hr; subst code ns'. clear Hr.
     apply At_cons in HAt as [Ha1 HAt]. apply At_app in HAt as [HAc HAj]. apply At_cons in HAj as [Ha3 _].
-    apply nodeleg_cons in Hnd as [_ Hnd]. apply nodeleg_app in Hnd as [Hndc _].
+    apply okdeleg_cons in Hnd as [_ Hnd]. apply okdeleg_app in Hnd as [Hndc _].
     replace (pc + 1) with (S pc) in * by lia.
     destruct (IH g _ (S pc) ns cc ns1 Hc Hndc HAc Hoc Hns Hng) as [Hmono IHc].
     split; auto. intros v K Hsl Hok. rewrite sem_repeat_eq. rewrite E2, N.eqb_refl.
@@ -1255,7 +1291,7 @@ Proof.
     apply andb_true_iff in ED as [E1 E2]. apply N.eqb_eq in E1, E2. subst lo.
     apply bindc_inr in Hv as ([cc ns1] & Hc & Hr). inversion Hr; subst code ns'. clear Hr.
     apply At_app in HAt as [HAc HAj]. apply At_cons in HAj as [Ha3 _].
-    apply nodeleg_app in Hnd as [Hndc _].
+    apply okdeleg_app in Hnd as [Hndc _].
     destruct (IH g _ pc ns cc ns1 Hc Hndc HAc Hoc Hns Hng) as [Hmono IHc].
     split; auto. intros v K Hsl Hok. rewrite sem_repeat_eq. rewrite E2, N.eqb_refl.
     change (N.to_nat 1) with 1. cbn [rep_must]. rewrite flat_map_id.
@@ -1273,7 +1309,7 @@ Proof.
   (* counted *)
   apply bindc_inr in Hv as ([cc ns1] & Hc & Hr). inversion Hr; subst code ns'. clear Hr.
   apply At_cons in HAt as [Ha1 HAt]. apply At_cons in HAt as [Ha2 HAt]. apply At_app in HAt as [HAc HAj]. apply At_cons in HAj as [Ha3 _].
-  apply nodeleg_cons in Hnd as [_ Hnd]. apply nodeleg_cons in Hnd as [_ Hnd]. apply nodeleg_app in Hnd as [Hndc _].
+  apply okdeleg_cons in Hnd as [_ Hnd]. apply okdeleg_cons in Hnd as [_ Hnd]. apply okdeleg_app in Hnd as [Hndc _].
   replace (pc + 2) with (S (S pc)) in * by lia.
   destruct (IH g _ (S (S pc)) (ns + 1) cc ns1 Hc Hndc HAc Hoc ltac:(lia) Hng) as [Hmono IHc].
   split; [lia|]. intros v K Hsl Hok. rewrite sem_repeat_eq.
@@ -1462,7 +1498,7 @@ Definition la_f (la : lookkind) (x : expr) (gx : nat) (st : sst) : list sst :=
   | _ => sem cx x fuel gx st
   end.
 
-Lemma sem_la_eq c la g st : wfe c -> zok c -> st_ok cs st ->
+Lemma sem_la_eq c la g st : wfe c -> (is_behind la = true -> zok c) -> st_ok cs st ->
   (match la with LookBehind | LookBehindNeg => const_size c = true | _ => True end) ->
   sem cx (LookAround c la) fuel g st =
   match la with
@@ -1470,7 +1506,7 @@ Lemma sem_la_eq c la g st : wfe c -> zok c -> st_ok cs st ->
   | _ => match la_f la c g st with [] => [st] | _ => [] end
   end.
 Proof.
-  intros Hw Hz Hok Hc. destruct st as [ix caps0]. destruct la; cbn [la_f fst snd].
+  intros Hw Hz Hok Hc. destruct st as [ix caps0]. destruct la; cbn [la_f fst snd]; try specialize (Hz eq_refl).
   - reflexivity.
   - reflexivity.
   - rewrite sem_lb, lb_found_const by auto. rewrite Hc, andb_false_r. destruct (goback cx ix (min_size c) ix); auto.
@@ -1512,22 +1548,41 @@ Proof.
     unfold la_pos, la_neg, la_inner; rewrite !Hc; reflexivity.
 Qed.
 
-Definition is_behind (la : lookkind) : bool := match la with LookBehind | LookBehindNeg => true | _ => false end.
 Definition setix (v : vst) (j : nat) : vst := {| v_ix := j; v_sl := v_sl v; v_aux := v_aux v |}.
 
 (* the body of a look-around, after the GoBack of a look-behind *)
-Lemma seg_la_inner la x gx pc ns code ns1 : seg_stmt false x ->
-  la_inner la x gx pc ns = inr (code, ns1) -> nodeleg code -> At pc code ->
-  oke false gx x -> NC <= ns -> 2 * (gx + ngroups x) <= NC ->
+Lemma visit_easy x g pc ns : hard bs g x = false -> visit bs x g false pc ns = inr (delegate1 x g, ns).
+Proof. intros H. destruct x; cbn [visit]; rewrite H; reflexivity. Qed.
+
+(* the body of a look-around is either easy (then it is one instruction: a literal or a delegated
+   deterministic block) or covered by the induction hypothesis *)
+Definition body_ok (x : expr) (gx : nat) : Prop :=
+  hard bs gx x = false \/ (seg_stmt false x /\ oke false gx x).
+
+Lemma seg_body x gx pc ns code ns1 : body_ok x gx -> NC <= ns -> 2 * (gx + ngroups x) <= NC ->
+  visit bs x gx false pc ns = inr (code, ns1) -> okdeleg code -> At pc code ->
+  ns <= ns1 /\
+  forall v K, ns1 <= length (v_sl v) -> st_ok cs (sof v) ->
+  Gen pc (pc + length code) K (RunV pc v K) (map (R false v ns ns1) (sem cx x fuel gx (sof v))).
+Proof.
+  intros [Hh|[IH Hok]] Hns Hng Hv Hnd HAt.
+  - rewrite (visit_easy x gx pc ns Hh) in Hv. inversion Hv; subst code ns1. split; auto.
+    intros v K Hsl Hokv. apply seg_deleg; auto using st_ok_ix.
+  - exact (IH gx false pc ns code ns1 Hv Hnd HAt Hok Hns Hng).
+Qed.
+
+Lemma seg_la_inner la x gx pc ns code ns1 : body_ok x gx ->
+  la_inner la x gx pc ns = inr (code, ns1) -> okdeleg code -> At pc code ->
+  NC <= ns -> 2 * (gx + ngroups x) <= NC ->
   ns <= ns1 /\
   forall v K, ns1 <= length (v_sl v) -> st_ok cs (sof v) ->
   Gen pc (pc + length code) K (RunV pc v K) (map (R false v ns ns1) (la_f la x gx (sof v))).
 Proof.
-  intros IH Hi Hnd HAt Hok Hns Hng.
+  intros IH Hi Hnd HAt Hns Hng.
   assert (Hahead : visit bs x gx false pc ns = inr (code, ns1) -> ns <= ns1 /\
             forall v K, ns1 <= length (v_sl v) -> st_ok cs (sof v) ->
             Gen pc (pc + length code) K (RunV pc v K) (map (R false v ns ns1) (sem cx x fuel gx (sof v)))).
-  { intros Hv. exact (IH gx false pc ns code ns1 Hv Hnd HAt Hok Hns Hng). }
+  { intros Hv. exact (seg_body x gx pc ns code ns1 IH Hns Hng Hv Hnd HAt). }
   assert (Hbehind : (if const_size x then
              bindc (visit bs x gx false (pc + 1) ns) (fun '(code, ns1) => inr (IGoBack (min_size x) :: code, ns1))
            else inl CLookBehindNotConst) = inr (code, ns1) -> ns <= ns1 /\
@@ -1537,9 +1592,9 @@ Proof.
                                  | GBOk j => sem cx x fuel gx (j, snd (sof v)) | _ => [] end))).
   { destruct (const_size x); [|discriminate]. intros Hv.
     apply bindc_inr in Hv as ([cc n1] & Hc & Hr). inversion Hr; subst code ns1. clear Hr.
-    apply At_cons in HAt as [Ha HAc]. apply nodeleg_cons in Hnd as [_ Hndc].
+    apply At_cons in HAt as [Ha HAc]. apply okdeleg_cons in Hnd as [_ Hndc].
     replace (pc + 1) with (S pc) in Hc by lia.
-    destruct (IH gx false (S pc) ns cc n1 Hc Hndc HAc Hok Hns Hng) as [M G]. split; auto.
+    destruct (seg_body x gx (S pc) ns cc n1 IH Hns Hng Hc Hndc HAc) as [M G]. split; auto.
     intros v K Hsl Hokv. cbn [sof fst snd]. apply Gen_step. unfold RunV at 1.
     rewrite (step_goback cx P MS pc _ _ _ K _ Ha).
     destruct Hokv as [Bix Hcaps]. cbn [sof fst snd] in Bix, Hcaps.
@@ -1555,21 +1610,22 @@ Proof.
   destruct la; cbn [la_inner la_f] in *; auto.
 Qed.
 
-Lemma visit_easy x g pc ns : hard bs g x = false -> visit bs x g false pc ns = inr (delegate1 x g, ns).
-Proof. intros H. destruct x; cbn [visit]; rewrite H; reflexivity. Qed.
-
 Lemma la_f_short la x gx code pc ns ns1 : hard bs gx x = false ->
-  la_inner la x gx pc ns = inr (code, ns1) -> nodeleg code ->
+  la_inner la x gx pc ns = inr (code, ns1) -> okdeleg code ->
   forall st, st_ok cs st -> length (la_f la x gx st) <= 1.
 Proof.
   intros Hh Hi Hnd st Hst.
-  assert (Hl : is_literal x = true).
+  assert (Hl : is_literal x = true \/ det x = true).
   { destruct la; cbn [la_inner] in Hi; try (destruct (const_size x); [|discriminate]);
       rewrite (visit_easy x gx _ ns Hh) in Hi; cbn [bindc] in Hi; inversion Hi; subst code;
-      try (apply nodeleg_cons in Hnd as [_ Hnd]);
-      unfold delegate1 in Hnd; destruct (is_literal x); auto; cbn in Hnd; discriminate. }
+      try (apply okdeleg_cons in Hnd as [_ Hnd]);
+      unfold delegate1 in Hnd; destruct (is_literal x); auto; right;
+      apply okdeleg_cons in Hnd as [Hnd _]; cbn [okinsn forallb] in Hnd;
+      apply andb_true_iff in Hnd as [Hnd _]; apply andb_true_iff in Hnd as [Hnd _]; exact Hnd. }
   assert (Hs : forall s, fst s <= length t -> length (sem cx x fuel gx s) <= 1).
-  { intros s Hsl. rewrite sem_is_literal by auto. unfold lit_res. destruct (lit_at _ _ _); cbn; lia. }
+  { intros s Hsl. destruct Hl as [Hl|Hl].
+    - rewrite sem_is_literal by auto. unfold lit_res. destruct (lit_at _ _ _); cbn; lia.
+    - destruct s as [j cp]. destruct (det_sem cx x Hl j) as [r Hr]. rewrite Hr. destruct r; cbn; lia. }
   assert (Hb : match goback cx (fst st) (min_size x) (fst st) with GBOk j => j <= length t | _ => True end).
   { pose proof (goback_sound cs W cx Htext (fst st) (min_size x) (fst st) (proj1 Hst) (le_n _)) as Gs.
     destruct (goback cx (fst st) (min_size x) (fst st)); auto. destruct Gs as (n0 & _ & D0).
@@ -1670,36 +1726,36 @@ Proof.
     + cbn [alt_of a_pc]. lia.
 Qed.
 
-Lemma seg_la_pos lk la c g pc ns code ns' : seg_stmt false c ->
-  la_pos la c g pc ns = inr (code, ns') -> nodeleg code -> At pc code ->
-  oke false g c -> NC <= ns -> 2 * (g + ngroups c) <= NC ->
+Lemma seg_la_pos lk la c g pc ns code ns' : body_ok c g ->
+  la_pos la c g pc ns = inr (code, ns') -> okdeleg code -> At pc code ->
+  NC <= ns -> 2 * (g + ngroups c) <= NC ->
   segP lk pc code ns ns' (fun st => map (fun s' => (fst st, snd s')) (firstn 1 (la_f la c g st))).
 Proof.
-  intros IH Hv Hnd HAt Hok Hns Hng. unfold la_pos in Hv. cbv zeta in Hv.
+  intros IH Hv Hnd HAt Hns Hng. unfold la_pos in Hv. cbv zeta in Hv.
   apply bindc_inr in Hv as ([cc n1] & Hi & Hr). inversion Hr; subst code ns'. clear Hr.
-  assert (Hsub : nodeleg cc /\ At (pc + 1 + (if hard bs g c then 1 else 0)) cc).
-  { pose proof HAt as HAt'. apply At_cons in HAt' as [_ HAt']. apply nodeleg_cons in Hnd as [_ Hnd].
+  assert (Hsub : okdeleg cc /\ At (pc + 1 + (if hard bs g c then 1 else 0)) cc).
+  { pose proof HAt as HAt'. apply At_cons in HAt' as [_ HAt']. apply okdeleg_cons in Hnd as [_ Hnd].
     destruct (hard bs g c); cbn [app] in *.
-    - apply At_cons in HAt' as [_ HAt']. apply At_app in HAt' as [HA _]. apply nodeleg_cons in Hnd as [_ Hnd].
-      apply nodeleg_app in Hnd as [Hn _]. split; auto. replace (pc + 1 + 1) with (S (S pc)) by lia. exact HA.
-    - apply At_app in HAt' as [HA _]. apply nodeleg_app in Hnd as [Hn _]. split; auto.
+    - apply At_cons in HAt' as [_ HAt']. apply At_app in HAt' as [HA _]. apply okdeleg_cons in Hnd as [_ Hnd].
+      apply okdeleg_app in Hnd as [Hn _]. split; auto. replace (pc + 1 + 1) with (S (S pc)) by lia. exact HA.
+    - apply At_app in HAt' as [HA _]. apply okdeleg_app in Hnd as [Hn _]. split; auto.
       replace (pc + 1 + 0) with (S pc) by lia. exact HA. }
   destruct Hsub as [Hndc HAc].
-  destruct (seg_la_inner la c g _ (ns + 1) cc n1 IH Hi Hndc HAc Hok ltac:(lia) Hng) as [M G].
+  destruct (seg_la_inner la c g _ (ns + 1) cc n1 IH Hi Hndc HAc ltac:(lia) Hng) as [M G].
   apply pos_wrap; auto; try lia. intros Hh st Hst. eapply la_f_short; eauto.
 Qed.
 
-Lemma seg_la_neg lk la c g pc ns code ns' : seg_stmt false c ->
-  la_neg la c g pc ns = inr (code, ns') -> nodeleg code -> At pc code ->
-  oke false g c -> NC <= ns -> 2 * (g + ngroups c) <= NC ->
+Lemma seg_la_neg lk la c g pc ns code ns' : body_ok c g ->
+  la_neg la c g pc ns = inr (code, ns') -> okdeleg code -> At pc code ->
+  NC <= ns -> 2 * (g + ngroups c) <= NC ->
   segP lk pc code ns ns' (fun st => match la_f la c g st with [] => [st] | _ => [] end).
 Proof.
-  intros IH Hv Hnd HAt Hok Hns Hng. unfold la_neg in Hv.
+  intros IH Hv Hnd HAt Hns Hng. unfold la_neg in Hv.
   apply bindc_inr in Hv as ([cc n1] & Hi & Hr). inversion Hr; subst code ns'. clear Hr.
   pose proof HAt as HAt'. apply At_cons in HAt' as [_ HAt']. apply At_app in HAt' as [HAc _].
-  apply nodeleg_cons in Hnd as [_ Hnd]. apply nodeleg_app in Hnd as [Hndc _].
+  apply okdeleg_cons in Hnd as [_ Hnd]. apply okdeleg_app in Hnd as [Hndc _].
   replace (S pc) with (pc + 1) in HAc by lia.
-  destruct (seg_la_inner la c g _ ns cc n1 IH Hi Hndc HAc Hok Hns Hng) as [M G].
+  destruct (seg_la_inner la c g _ ns cc n1 IH Hi Hndc HAc Hns Hng) as [M G].
   apply neg_wrap; auto.
 Qed.
 
@@ -1710,7 +1766,7 @@ Variable cf : expr -> nat -> nat -> nat -> cerr + cres.     (* child, first grou
 Variable sf : expr -> nat -> sst -> list sst.
 
 Definition cf_ok (x : expr) : Prop := forall g pc ns code ns',
-  cf x g pc ns = inr (code, ns') -> nodeleg code -> At pc code -> oke lk0 g x -> NC <= ns ->
+  cf x g pc ns = inr (code, ns') -> okdeleg code -> At pc code -> oke lk0 g x -> NC <= ns ->
   2 * (g + ngroups x) <= NC -> segP lk pc code ns ns' (sf x g).
 
 Fixpoint galt_codes (g pc ns : nat) (l : list expr) : cerr + (list (list insn) * nat) :=
@@ -1747,7 +1803,7 @@ Qed.
 
 Lemma gseg_alts : forall r x, Forall cf_ok (x :: r) -> forall g pc ns cds ns',
   galt_codes g pc ns (x :: r) = inr (cds, ns') ->
-  nodeleg (alt_layout pc (pc + alt_size cds) cds) -> At pc (alt_layout pc (pc + alt_size cds) cds) ->
+  okdeleg (alt_layout pc (pc + alt_size cds) cds) -> At pc (alt_layout pc (pc + alt_size cds) cds) ->
   okl lk0 g (x :: r) -> NC <= ns -> 2 * (g + ngroups_list (x :: r)) <= NC ->
   ns <= ns' /\
   forall v K, ns' <= length (v_sl v) -> st_ok cs (sof v) ->
@@ -1766,7 +1822,7 @@ Proof.
     set (endpc := pc + alt_size (c :: c' :: r')) in *.
     assert (Eend : endpc = (pc + 1 + length c + 1) + alt_size (c' :: r')) by (unfold endpc; rewrite alt_size_cons2; lia).
     rewrite alt_layout_cons2 in Hnd, HAt.
-    apply nodeleg_cons in Hnd as [_ Hnd]. apply nodeleg_app in Hnd as [Hnc Hnd]. apply nodeleg_cons in Hnd as [_ Hnr].
+    apply okdeleg_cons in Hnd as [_ Hnd]. apply okdeleg_app in Hnd as [Hnc Hnd]. apply okdeleg_cons in Hnd as [_ Hnr].
     apply At_cons in HAt as [Ha1 HAt]. apply At_app in HAt as [HAc HAt]. apply At_cons in HAt as [Ha2 HAr].
     replace (S pc) with (pc + 1) in * by lia.
     replace (S (pc + 1 + length c)) with (pc + 1 + length c + 1) in HAr by lia.
@@ -1805,7 +1861,7 @@ Fixpoint gsem_seq (g : nat) (l : list expr) (st : sst) : list sst :=
 Hypothesis sf_ok : forall x g st st', oke lk0 g x -> st_ok cs st -> In st' (sf x g st) -> st_ok cs st'.
 
 Lemma gseg_seq : forall B, Forall cf_ok B -> forall g pc ns code ns',
-  gseq_codes g pc ns B = inr (code, ns') -> nodeleg code -> At pc code ->
+  gseq_codes g pc ns B = inr (code, ns') -> okdeleg code -> At pc code ->
   okl lk0 g B -> NC <= ns -> 2 * (g + ngroups_list B) <= NC ->
   segP lk pc code ns ns' (gsem_seq g B).
 Proof.
@@ -1813,7 +1869,7 @@ Proof.
   - inversion Hv; subst. apply segP_nil.
   - apply bindc_inr in Hv as ([c1 ns1] & H1 & Hv). apply bindc_inr in Hv as ([c2 ns2] & H2 & Hv).
     inversion Hv; subst code ns'. clear Hv.
-    apply nodeleg_app in Hnd as [Hn1 Hn2]. apply At_app in HAt as [HA1 HA2].
+    apply okdeleg_app in Hnd as [Hn1 Hn2]. apply At_app in HAt as [HA1 HA2].
     apply okl_cons in Hokl as [Ho1 Ho2]. rewrite ngl_cons in Hng.
     pose proof (Hx g pc ns c1 ns1 H1 Hn1 HA1 Ho1 Hns ltac:(lia)) as S1.
     assert (M1 : ns <= ns1) by apply S1.
@@ -1927,7 +1983,7 @@ Lemma la_pos_ok lk la x : (la = LookAhead \/ la = LookBehind) -> seg_stmt false 
   cf_ok false lk (la_pos la) (fun x g => sem cx (LookAround x la) fuel g) x.
 Proof.
   intros Hla IH g pc ns code ns' Hv Hnd HAt Hok Hns Hng.
-  eapply segP_ext; [|eapply seg_la_pos; eauto]. intros st Hst. cbv beta.
+  eapply segP_ext; [|eapply seg_la_pos; eauto; right; split; auto]. intros st Hst. cbv beta.
   destruct Hok as (Hw & Hz & _). rewrite sem_la_eq; auto.
   - destruct Hla as [->| ->]; reflexivity.
   - destruct Hla as [->| ->]; auto. eapply (la_const LookBehind); eauto.
@@ -1936,7 +1992,7 @@ Lemma la_neg_ok lk la x : (la = LookAheadNeg \/ la = LookBehindNeg) -> seg_stmt 
   cf_ok false lk (la_neg la) (fun x g => sem cx (LookAround x la) fuel g) x.
 Proof.
   intros Hla IH g pc ns code ns' Hv Hnd HAt Hok Hns Hng.
-  eapply segP_ext; [|eapply seg_la_neg; eauto]. intros st Hst. cbv beta.
+  eapply segP_ext; [|eapply seg_la_neg; eauto; right; split; auto]. intros st Hst. cbv beta.
   destruct Hok as (Hw & Hz & _). rewrite sem_la_eq; auto.
   - destruct Hla as [->| ->]; reflexivity.
   - destruct Hla as [->| ->]; auto. eapply (la_const LookBehindNeg); eauto.
@@ -1966,7 +2022,7 @@ Lemma seg_lookaround lk c la : seg_stmt false c -> (forall es, c = Alt es -> For
   seg_stmt lk (LookAround c la).
 Proof.
   intros IH IHalts g hc pc ns code ns' Hv Hnd HAt (Hw & Hz & Hac & Hrk) Hns Hng.
-  cbn [wfe] in Hw. cbn [acheck] in Hac. cbn [rok] in Hrk. cbn [ngroups] in Hng.
+  cbn [wfe] in Hw. cbn [acheck] in Hac. cbn [rok] in Hrk. destruct Hrk as [Hrk Hzb]. cbn [ngroups] in Hng.
   destruct (match la, c with (LookBehind | LookBehindNeg), Alt _ => negb (const_size c) | _, _ => false end) eqn:Esplit.
   { (* an alternation of different lengths under a look-behind: split *)
     destruct c as [| | | | |es| | | | | | | | | | |]; try (destruct la; discriminate).
@@ -2004,12 +2060,10 @@ Proof.
   { destruct la; try exact I; destruct c; try exact I; cbn [lb_alt_const]; now apply negb_false_iff in Esplit. }
   rewrite (visit_la c la g hc pc ns Hlb) in Hv. change (hard bs g (LookAround c la)) with true in Hv.
   rewrite andb_false_r in Hv.
-  assert (Hzc : zok c).
-  { destruct c; try exact Hz; try exact I. destruct k; [exact I|]. exfalso.
-    destruct la; unfold la_pos, la_neg, la_inner in Hv; cbn in Hv;
-      repeat match type of Hv with context [if ?b then _ else _] => destruct b end;
-      cbn in Hv; try discriminate; inversion Hv; subst code; cbn in Hnd; discriminate. }
-  assert (Hoc : oke false g c) by (repeat split; auto).
+  assert (Hbody : body_ok c g).
+  { destruct (hard bs g c) eqn:Hh; [right|left; exact Hh]. split; auto.
+    assert (Hzc : zok c) by (destruct c; try exact Hz; discriminate).
+    repeat split; auto. }
   assert (Hcs : match la with LookBehind | LookBehindNeg => const_size c = true | _ => True end).
   { destruct la; auto; unfold la_pos, la_neg, la_inner in Hv; destruct (const_size c); auto; discriminate. }
   destruct la.
@@ -2033,7 +2087,7 @@ Proof.
     [inversion Hv; subst code ns'; split; [lia|]; intros v K Hsl Hok; apply seg_deleg; auto using st_ok_ix|].
   apply bindc_inr in Hv as ([cc ns1] & Hc & Hr). inversion Hr; subst code ns'. clear Hr.
   apply At_cons in HAt as [Ha1 HAt]. apply At_app in HAt as [HAc HA2]. apply At_cons in HA2 as [Ha2 _].
-  apply nodeleg_cons in Hnd as [_ Hnd]. apply nodeleg_app in Hnd as [Hndc _].
+  apply okdeleg_cons in Hnd as [_ Hnd]. apply okdeleg_app in Hnd as [Hndc _].
   cbn [ngroups] in Hng. cbn [wfe] in Hw. cbn [zok] in Hz. cbn [acheck] in Hac. cbn [rok] in Hrk.
   replace (pc + 1) with (S pc) in Hc by lia.
   destruct (IH g false (S pc) ns cc ns1 Hc Hndc HAc (conj Hw (conj Hz (conj Hac Hrk))) Hns ltac:(lia)) as [Hmono IHc].
@@ -2076,8 +2130,8 @@ Proof.
   set (pc_y := pc + 2 + length cc + 1) in *. set (pc_n := pc_y + length cy + 1) in *.
   apply At_cons in HAt as [Ha1 HAt]. apply At_cons in HAt as [Ha2 HAt]. apply At_app in HAt as [HAc HAt].
   apply At_cons in HAt as [Ha3 HAt]. apply At_app in HAt as [HAy HAt]. apply At_cons in HAt as [Ha4 HAn].
-  apply nodeleg_cons in Hnd as [_ Hnd]. apply nodeleg_cons in Hnd as [_ Hnd]. apply nodeleg_app in Hnd as [Hndc Hnd].
-  apply nodeleg_cons in Hnd as [_ Hnd]. apply nodeleg_app in Hnd as [Hndy Hnd]. apply nodeleg_cons in Hnd as [_ Hndn].
+  apply okdeleg_cons in Hnd as [_ Hnd]. apply okdeleg_cons in Hnd as [_ Hnd]. apply okdeleg_app in Hnd as [Hndc Hnd].
+  apply okdeleg_cons in Hnd as [_ Hnd]. apply okdeleg_app in Hnd as [Hndy Hnd]. apply okdeleg_cons in Hnd as [_ Hndn].
   replace (S (S pc)) with (pc + 2) in * by lia.
   replace (S (pc + 2 + length cc)) with pc_y in * by (unfold pc_y; lia).
   replace (S (pc_y + length cy)) with pc_n in * by (unfold pc_n; lia).
@@ -2150,8 +2204,11 @@ Proof.
   - apply seg_group, IHe.
   - apply seg_lookaround; apply IHe.
   - apply seg_repeat, IHe.
-  - intros g hc pc ns code ns' Hv Hnd. exfalso. cbn [visit] in Hv.
-    destruct (negb hc && negb (hard bs g (Delegate i s c k))); inversion Hv; subst code; cbn in Hnd; discriminate.
+  - (* a class node: always one Delegate instruction over a deterministic block *)
+    intros g hc pc ns code ns' Hv Hnd HAt _ _ _. cbn [visit] in Hv.
+    assert (Hv' : code = delegate1 (Delegate i s c k) g /\ ns' = ns).
+    { destruct (negb hc && negb (hard bs g (Delegate i s c k))); inversion Hv; auto. }
+    destruct Hv' as [-> ->]. split; [lia|]. intros v K Hsl Hokv. apply seg_deleg; auto using st_ok_ix.
   - apply seg_backref.
   - apply seg_atomic, IHe.
   - apply seg_keepout.
